@@ -54,13 +54,20 @@ def impl_values(arr):
 DTYPES = ["f8", "f8", "f8", "f4", "i8", "i4", "i1", "u1", "u2", "u8"]
 
 
-def draw(rng, dt):
-    """an exactly representable value of the numeric type"""
+def draw(rng, dt, big_ok=False):
+    """an exactly representable value of the numeric type (big_ok: int64 values that double precision cannot hold — only where
+    the difference is formed in integers on both sides)"""
     if dt[0] == "f":
         return Fr(rng.randint(-64, 64), 8)
     info = np.iinfo(dt)
     if rng.random() < 0.3:
-        return rng.choice([info.min, info.max, 0, min(info.max, 200)]) if info.max <= 2 ** 32 else rng.choice([0, 2 ** 40, -(2 ** 40) if info.min < 0 else 7])
+        if info.max <= 2 ** 32:
+            return rng.choice([info.min, info.max, 0, min(info.max, 200)])
+        if info.min < 0 and big_ok:  # int64: also values that double precision cannot hold (their differences stay exact)
+            return rng.choice([0, 2 ** 40, -(2 ** 40), 2 ** 53 + 1, 2 ** 60 + 1, 2 ** 60, -(2 ** 60) - 3])    # (differences fit int64)
+        if info.min < 0:
+            return rng.choice([0, 2 ** 40, -(2 ** 40)])
+        return rng.choice([0, 2 ** 40, 7])
     return rng.randint(max(info.min, -100), min(info.max, 100))
 
 
@@ -119,6 +126,42 @@ def run_table(c):
     return out
 
 
+EXACT_INT = ("i8", "i4", "i1", "u1", "u2")
+
+
+def expected_diff(r, s_, dt_r, dt_s):
+    """reference minus source: exact when both sides hold integers other than uint64 (the library subtracts them as int64);
+    otherwise the double-precision difference of the two values (one side is floating point, or uint64, which the library
+    subtracts as floats) — the same thing for all values that double precision holds exactly"""
+    if dt_r in EXACT_INT and dt_s in EXACT_INT:
+        return r - s_
+    return Fr(float(r) - float(s_))
+
+
+WHAT_TABLE_ROUNDING = ("F-C14b: the difference of two INTEGER table columns is delivered in a double-precision column (tables carry NaN "
+                       "for missing rows), so a difference beyond 2^53 comes back rounded to the nearest double")
+
+
+def table_diff_only_rounded(c, im, orc):
+    """every entry in which the implementation deviates from the exact difference belongs to a column that is integer-typed
+    (not uint64) on both sides, the exact difference is not a double, and the implementation delivers the nearest double"""
+    dts = c.get("dtypes", {})
+    seen = False
+    for name, want in orc["fields"].items():
+        got = im["fields"].get(name)
+        if got is None or len(got) != len(want):
+            return False
+        for g, w in zip(got, want):
+            if g == w:
+                continue
+            if not (dts.get("ref", {}).get(name) in EXACT_INT and dts.get("src", {}).get(name) in EXACT_INT):
+                return False
+            if g is None or w is None or Fr(float(w)) == w or g != Fr(float(w)):
+                return False
+            seen = True
+    return seen and set(im["fields"]) == set(orc["fields"])
+
+
 def oracle_table(c):
     n = max(c["src_rows"], c["ref_rows"])
     S, R = dict(c["src"]), dict(c["ref"])
@@ -126,7 +169,8 @@ def oracle_table(c):
     for name in set(S) | set(R):
         if name in S and name in R:
             m = min(len(S[name]), len(R[name]))
-            out[name] = [R[name][i] - S[name][i] for i in range(m)] + [None] * (n - m)
+            dr, ds = c.get("dtypes", {}).get("ref", {}).get(name, "f8"), c.get("dtypes", {}).get("src", {}).get(name, "f8")
+            out[name] = [expected_diff(R[name][i], S[name][i], dr, ds) for i in range(m)] + [None] * (n - m)
         else:
             out[name] = [None] * n
     return {"rows": n, "fields": out}
@@ -141,9 +185,11 @@ def gen_mesh_case(rng):
         if rng.random() < 0.6:
             dts["ref"][nm] = dts["src"][nm]
 
+    big = {nm: dts["src"][nm] in EXACT_INT and dts["ref"][nm] in EXACT_INT for nm in base}
+
     def side(which):
-        pf = {nm: [draw(rng, dts[which][nm]) for _ in range(n)] for nm in base if rng.random() < 0.6}
-        cf = {nm: {t: [draw(rng, dts[which][nm]) for _ in rows] for t, rows in M["blocks"]} for nm in base if rng.random() < 0.5}
+        pf = {nm: [draw(rng, dts[which][nm], big[nm]) for _ in range(n)] for nm in base if rng.random() < 0.6}
+        cf = {nm: {t: [draw(rng, dts[which][nm], big[nm]) for _ in rows] for t, rows in M["blocks"]} for nm in base if rng.random() < 0.5}
         return pf, cf
     (ps, cs), (pr, cr) = side("src"), side("ref")
     order = list(range(len(M["blocks"])))
@@ -195,7 +241,10 @@ def oracle_mesh(c):
     out = {}
     for name in set(S) | set(R):
         if name in S and name in R:
-            out[name] = [r - s for r, s in zip(R[name], S[name])]
+            base = name.split(" @ ")[0]
+            dts = c.get("dtypes", {})
+            dr, ds = dts.get("ref", {}).get(base, "f8"), dts.get("src", {}).get(base, "f8")
+            out[name] = [expected_diff(r, s_, dr, ds) for r, s_ in zip(R[name], S[name])]
         else:
             out[name] = [None] * len(S.get(name, R.get(name)))
     return {"fields": out}
@@ -417,13 +466,32 @@ def run(ctx):
         if im.get("repeat_differs"):
             ctx.violation("E4", "computing the difference of the same two objects a second time gives other values (or changes "
                                 "the first result)", canon, impl=lib.json.loads(lib.json.dumps(im, default=str)))
-        if im["fields"] != orc["fields"] or (c["kind"] == "table" and im["rows"] != orc["rows"]) or \
+        if c["kind"] == "table" and im["rows"] == orc["rows"] and im["fields"] != orc["fields"] and table_diff_only_rounded(c, im, orc):
+            ctx.violation("E4", WHAT_TABLE_ROUNDING, canon, impl=lib.json.loads(lib.json.dumps(im, default=str)))
+        elif im["fields"] != orc["fields"] or (c["kind"] == "table" and im["rows"] != orc["rows"]) or \
                 (c["kind"] == "mesh" and not im["domain_is_reference"]):
             ctx.violation("E4", "diff_to is not reference - source on matching entities / NaN for one-sided fields / on the common domain",
                           canon, impl=lib.json.loads(lib.json.dumps(im, default=str)))
         elif mo != im["fields"]:
             ctx.violation("E2", "model diff != implementation diff", canon, found_input=False)
         ctx.traces_validated += 1
+    # directed probe: integer table columns whose difference is no double (one finding class when it deviates)
+    probe = {"kind": "table", "src_rows": 2, "ref_rows": 2, "src": [["a", [17, 2 ** 53 + 1]], ["t", [Fr(1, 2), Fr(3, 2)]]],
+             "ref": [["a", [2 ** 62 + 1, -50]], ["t", [Fr(1), Fr(1)]]], "src_idx": None, "ref_idx": None,
+             "dtypes": {"src": {"a": "i8", "t": "f8"}, "ref": {"a": "i8", "t": "f8"}}}
+    try:
+        with warnings.catch_warnings():
+            warnings.simplefilter("ignore")
+            im = run_table(probe)
+        orc = oracle_table(probe)
+        pc = lib.json.loads(lib.json.dumps(probe, default=str))
+        ctx.case(pc, True)
+        ctx.count("kind:table probe (integer differences beyond 2^53)")
+        if im.get("fields") != orc["fields"]:
+            ctx.violation("E4", WHAT_TABLE_ROUNDING if table_diff_only_rounded(probe, im, orc) else
+                          "diff_to of integer table columns is not reference - source", pc, impl=lib.json.loads(lib.json.dumps(im, default=str)))
+    except Exception as e:  # noqa: BLE001
+        ctx.violation("E4", f"diff_to of integer table columns raised {type(e).__name__}: {e}", {"probe": "integer table columns"})
     for i in range(60 if q else 1500):
         cli_diff_case(ctx, rng, str(ctx.workdir), i)
     for i in range(12 if q else 300):
